@@ -2322,6 +2322,9 @@ class Client:
                         raise
                     self._easy_log(
                         MQTT_LOG_DEBUG, "Connection failed, retrying")
+                    # reconnect() left the state at CONNECTING: stay in this first-connection
+                    # loop, otherwise the main loop below waits a second time before retrying
+                    self._state = _ConnectionState.MQTT_CS_CONNECT_ASYNC
                     self._reconnect_wait()
             else:
                 break
